@@ -949,7 +949,7 @@ fn run_case(c: &Case, controls: &BTreeMap<String, Obs>, rt: &tokio::runtime::Run
 }
 
 fn main() {
-    let mut run = Run::from_args("C33", "fault_enumeration");
+    let mut run = Run::from_args("C33", "exploration");
     report::quiet_panics();
     run.rule = "cases = (tiny jpg/png/mp4) x (subset of 5 custom assertions referenced by the identity assertion, sizes 0..5 => 1..6 references incl. the hard binding) x (CAWG credential ed25519/es256/ps256) x mutation (17 kinds over signer payload / COSE signature / padding / referenced assertion, with a seeded position selector) ; every signed asset is validated in 3 CAWG trust modes x 2 reader modes (inline decode, post_validate_async with CawgValidator). Non-trivial = the mutation was applied (wrapper confirms) and the asset signed; distinct = (format, component, mutation, trust mode, #references, reader mode, state, cawg failure codes).".into();
     run.assumptions = vec![
